@@ -107,13 +107,22 @@ def get_variant_information(variant_table: VariantTable, sample: str):
 
 
 def attempt_add_phase_information(
-    alignment, read_to_haplotype, bxtag_to_haplotype, linked_read_cutoff, ignore_linked_read
+    alignment,
+    read_to_haplotype,
+    bxtag_to_haplotype,
+    linked_read_cutoff,
+    ignore_linked_read,
+    sample=None,
 ):
+    """
+    sample -- the sample the alignment belongs to (None if read groups are ignored): only
+    reads and read clouds of that sample are taken into account
+    """
     is_tagged = 0
     haplotype_name = "none"
     phaseset = "none"
     try:
-        haplotype, quality, phaseset = read_to_haplotype[alignment.query_name]
+        haplotype, quality, phaseset = read_to_haplotype[(sample, alignment.query_name)]
         haplotype_name = f"H{haplotype + 1}"
         alignment.set_tag("HP", haplotype + 1)
         alignment.set_tag("PC", quality)
@@ -127,7 +136,7 @@ def attempt_add_phase_information(
             except KeyError:
                 read_clouds = []
             else:  # alignment has BX tag
-                read_clouds = bxtag_to_haplotype[tag]
+                read_clouds = bxtag_to_haplotype[(sample, tag)]
 
             for reference_start, haplotype, cloud_phaseset in read_clouds:
                 if abs(reference_start - alignment.reference_start) <= linked_read_cutoff:
@@ -164,17 +173,23 @@ def prepare_haplotag_information(
     ignore_linked_read,
     linked_read_cutoff,
     ploidy,
+    ignore_read_groups=True,
 ):
     """
     Read all reads for this chromosome once to create one core.ReadSet per sample.
     This allows to assign phase to paired-end reads based on both reads
+
+    Both returned dictionaries are keyed by (sample, read name) and (sample, BX tag),
+    where sample is None if read groups are ignored
     """
     n_multiple_phase_sets = 0
     BX_tag_to_haplotype = defaultdict(list)
-    # maps read name to (haplotype, quality, phaseset)
+    # maps (sample, read name) to (haplotype, quality, phaseset)
     read_to_haplotype = {}
 
     for sample in shared_samples:
+        # Reads with the same name or the same BX tag in different samples are different reads
+        sample_key = None if ignore_read_groups else sample
         variantpos_to_phaseinfo, variants = get_variant_information(variant_table, sample)
         read_set, _ = phased_input_reader.read(
             variant_table.chromosome, variants, sample, regions=regions
@@ -237,10 +252,12 @@ def prepare_haplotag_information(
                 continue
 
             if not ignore_linked_read and read.has_BX_tag():
-                BX_tag_to_haplotype[read.BX_tag].append((read.reference_start, first_ht, phaseset))
+                BX_tag_to_haplotype[(sample_key, read.BX_tag)].append(
+                    (read.reference_start, first_ht, phaseset)
+                )
 
             for r in reads_to_consider:
-                read_to_haplotype[r.name] = (first_ht, quality, phaseset)
+                read_to_haplotype[(sample_key, r.name)] = (first_ht, quality, phaseset)
                 logger.debug(
                     "Assigned read {} to haplotype {} with a "
                     "quality of {} based on {} covered variants".format(
@@ -586,6 +603,9 @@ def run_haplotag(
         n_multiple_phase_sets = 0
 
         has_alignments = contigs_with_alignments(bam_reader)
+        read_group_to_sample = {
+            rg["ID"]: (rg["SM"] if "SM" in rg else "") for rg in bam_reader.header.get("RG", [])
+        }
 
         for chrom, regions in user_regions.items():
             logger.debug(f"Processing chromosome {chrom}")
@@ -620,6 +640,7 @@ def run_haplotag(
                     ignore_linked_read,
                     linked_read_distance_cutoff,
                     ploidy,
+                    ignore_read_groups,
                 )
                 n_multiple_phase_sets += n_mult
             else:
@@ -649,12 +670,17 @@ def run_haplotag(
                         alignment.set_tag("PC", value=None)
                         alignment.set_tag("PS", value=None)
                     else:
+                        if ignore_read_groups or not alignment.has_tag("RG"):
+                            alignment_sample = None
+                        else:
+                            alignment_sample = read_group_to_sample.get(alignment.get_tag("RG"))
                         (is_tagged, haplotype_name, phaseset) = attempt_add_phase_information(
                             alignment,
                             read_to_haplotype,
                             BX_tag_to_haplotype,
                             linked_read_distance_cutoff,
                             ignore_linked_read,
+                            alignment_sample,
                         )
                         n_tagged += is_tagged
 
